@@ -125,7 +125,16 @@ def run(repo, rep, tier):
         return any(isinstance(n, ast.Call) and pred(n) for n in walk_no_nested(tgt))
     sends = c.stmts_matching(lambda st: is_call(st, lambda n: unparse(n.func) == 'kex_group.send_init'))
     closes = c.stmts_matching(lambda st: is_call(st, lambda n: unparse(n.func) == 's.close'))
-    loops = [n for n in walk_no_nested(pt) if isinstance(n, ast.For) and unparse(n.iter) == 'host_key_types']
+    # the probe loop: the for statement enclosing the connect site (whatever it iterates -- rule `bound` decides what it may iterate)
+    loops = []
+    for n in walk_no_nested(pt):
+        if isinstance(n, ast.Call) and unparse(n.func) == 's.connect':
+            q = n
+            while q is not None and q is not pt:
+                if isinstance(q, ast.For):
+                    loops.append(q)
+                q = getattr(q, '_parent', None)
+    loops = list(dict.fromkeys(loops))
     rep.floor('senders', 'send sites in perform_test', len(sends), 1)
     rep.floor('senders', 'host-key type loop', len(loops), 1)
     heads = c.nodes_of(loops[0], kinds=('test',))
@@ -164,8 +173,32 @@ def run(repo, rep, tier):
         pcs = path_condition(conns[0])
         fors = [unparse(t) for t, pp, k in pcs if k == 'for']
         ifs = [(unparse(t), pp) for t, pp, k in pcs if k == 'if']
-        ok = fors == ['host_key_types'] and ('not s.is_connected()', True) in ifs
-    rep.check('bound', 'host-key probe: one connect per probed type, only when not connected, inside the literal-table loop', ok, conns[0] if conns else pt, 'connect site in perform_test: loops %s' % ([unparse(t) for t, pp, k in path_condition(conns[0]) if k == 'for'] if conns else '?'))
+        ok = len(fors) == 1 and ('not s.is_connected()', True) in ifs
+        # what the loop iterates decides the number of connections: the literal table (the parameter the only caller binds to it), possibly filtered -- never a list the peer supplied
+
+        def bound_source(e):
+            if isinstance(e, ast.Name) and e.id == 'host_key_types':
+                return 'table'
+            if unparse(e) == 'HostKeyTest.HOST_KEY_TYPES':
+                return 'table'
+            if isinstance(e, ast.Call) and isinstance(e.func, ast.Name) and e.func.id in ('list', 'sorted', 'tuple', 'set', 'reversed') and len(e.args) == 1:
+                return bound_source(e.args[0])
+            if isinstance(e, ast.Call) and isinstance(e.func, ast.Attribute) and e.func.attr in ('keys', 'items') and not e.args:
+                return bound_source(e.func.value)
+            if isinstance(e, (ast.ListComp, ast.GeneratorExp, ast.SetComp)) and len(e.generators) == 1:
+                return bound_source(e.generators[0].iter)
+            if any(isinstance(x, ast.Name) and x.id in ('server_kex', 'kex', 'payload') for x in ast.walk(e)):
+                return 'peer'
+            return 'unknown'
+        for_nodes = [t for t, pp, k in pcs if k == 'for']
+        if for_nodes:
+            src = bound_source(for_nodes[0])
+            if src == 'unknown':
+                raise AnalysisError('host-key probe loop iterates %s: cannot tell whether it is bounded by the literal table' % unparse(for_nodes[0]))
+            rep.check('bound', 'host-key probe loop is bounded by the literal table of key types, not by a peer-supplied list', src == 'table', conns[0],
+                      'the host-key probe opens one connection per element of %s: the number of connections is chosen by the peer (a long or repetitive host-key list makes the audit open as many connections), not bounded by the %d-entry table' % (unparse(for_nodes[0]), len(hkt)),
+                      stmt='host-key probe loop source')
+    rep.check('bound', 'host-key probe: one connect per probed type, only when not connected, inside the probe loop', ok, conns[0] if conns else pt, 'connect site in perform_test: loops %s' % ([unparse(t) for t, pp, k in path_condition(conns[0]) if k == 'for'] if conns else '?'))
     hk_bound = len(hkt)
     gr = repo.func('gextest', 'GEXTest.run')
     rep.saw(gr)
